@@ -161,10 +161,10 @@ func TestC05(t *testing.T) {
 	r.AddExtra("n_sweep_programs", nsweep)
 
 	cfgs := []gen.Cfg{
-		{MaxStmts: 20, MaxDepth: 4, ExprDepth: 3, Panics: true, LoopBudget: 16, CmdNeutral: true, ErrSpell: true, BareExpr: true},
-		{MaxStmts: 22, MaxDepth: 3, ExprDepth: 3, Funcs: true, MaxFuncs: 4, Slices: true, LoopBudget: 10, DumpGlobal: true, CmdNeutral: true, ErrSpell: true, BareExpr: true},
-		{MaxStmts: 22, MaxDepth: 3, ExprDepth: 3, Funcs: true, MaxFuncs: 3, Slices: true, StrOps: true, LoopBudget: 10, DumpGlobal: true, BigSlices: true, CmdNeutral: true, ErrSpell: true, BareExpr: true},
-		{MaxStmts: 14, MaxDepth: 3, ExprDepth: 3, Funcs: true, MaxFuncs: 2, Slices: true, StrOps: true, LoopBudget: 8, Tracers: true, CmdNeutral: true, ErrSpell: true, BareExpr: true},
+		{MaxStmts: 20, MaxDepth: 4, ExprDepth: 3, LoopBudget: 16, CmdNeutral: true, ErrSpell: true, BareExpr: true, Panics: true},
+		{MaxStmts: 22, MaxDepth: 3, ExprDepth: 3, Funcs: true, MaxFuncs: 4, Slices: true, LoopBudget: 10, DumpGlobal: true, CmdNeutral: true, ErrSpell: true, BareExpr: true, Panics: true},
+		{MaxStmts: 22, MaxDepth: 3, ExprDepth: 3, Funcs: true, MaxFuncs: 3, Slices: true, StrOps: true, LoopBudget: 10, DumpGlobal: true, BigSlices: true, CmdNeutral: true, ErrSpell: true, BareExpr: true, Panics: true},
+		{MaxStmts: 14, MaxDepth: 3, ExprDepth: 3, Funcs: true, MaxFuncs: 2, Slices: true, StrOps: true, LoopBudget: 8, Tracers: true, CmdNeutral: true, ErrSpell: true, BareExpr: true, Panics: true},
 	}
 	maxSteps := e.Pick(1500, 5000)
 	checkRapid(t, r, func(t *rapid.T) {
